@@ -1,11 +1,12 @@
 import BU.Driver.Core
 import BU.Driver.Wire
 import BU.Driver.Timelock
+import BU.Driver.Block
 /-! Compiled driver (`lean_exe budriver`): one request per line on stdin, one answer per line on
 stdout.  Imports Model/Spec/Crypto only — never `BU.Gen.*`, never Mathlib. -/
 open Driver
 
-def allOps : List (String × (Model.Tables → R String)) := wireOps ++ timelockOps
+def allOps : List (String × (Model.Tables → R String)) := wireOps ++ timelockOps ++ blockOps
 
 def handle (T : Model.Tables) (line : String) : Model.Tables × String :=
   match (line.splitOn " ").filter (· ≠ "") with
